@@ -14,7 +14,7 @@
   'unwind_quick':7, 'unwind_thorough':8, 'bound':'pool of 4 / 5 slots',
   'claims':'the delete_ opcode body unlinks exactly the current slot: the list stays well-formed, the other slots keep their order, the count drops by one, the slot is flagged deleted, highwater moves off it'}@*/
 /*@unit {'name':'c03_insert', 'props':['C03','C05'], 'entry':'h_insert', 'kind':'bounded', 'defines_quick':['NSLOTS=4','OPCODES'], 'defines_thorough':['NSLOTS=5','OPCODES'],
-  'unwind_quick':7, 'unwind_thorough':8, 'bound':'pool of 4 / 5 slots (one of them free)',
+  'unwind_quick':7, 'unwind_thorough':8, 'bound':'pool of 4 / 5 slots (one of them free, at most one deleted slot under the cursor)',
   'claims':'the insert opcode body links the new slot before the first non-deleted slot at or after the cursor (or at the end): list well-formed, count + 1, all other slots keep their order; the new slot takes before/after/original from its neighbours (so they stay valid char-info indices)'}@*/
 
 /*@include slots.tc@*/
@@ -144,10 +144,16 @@ void h_insert(void)
     Slot *fresh = g_free;
     if (fresh) Slot_ctor(fresh, (int16 *)0);
     rb.is = pick_slot();
-    __CPROVER_assume(rb.is == (Slot *)0 || in_order(o0, n0, IDX(rb.is)) );
-    /* deleted slots referenced by the cursor chain stay linked forward to the stream: model "deleted" only on the cursor */
-    Slot *cur = rb.is;
+    /* the cursor is a slot of the stream, NULL, or a slot deleted earlier in this rule: such a slot is off the list,
+       carries the DELETED mark and its next link still leads to the stream (or to NULL at the end) */
     for (int i = 0; i < NSLOTS; ++i) g_pool[i].m_flags &= ~DELETED;
+    Slot *cur = rb.is;
+    bool cur_deleted = cur && !in_order(o0, n0, IDX(cur));
+    if (cur_deleted) {
+        __CPROVER_assume(cur != fresh && (cur->m_next == (Slot *)0 || in_order(o0, n0, IDX(cur->m_next))));
+        cur->m_flags |= DELETED;
+    }
+    Slot *iss0 = cur_deleted ? cur->m_next : cur;          /* first non-deleted slot at or after the cursor */
     /* char-info indices in range [0, M) */
     uint32 M = nondet_unsigned(); __CPROVER_assume(M >= 1 && M <= 1000);
     for (int i = 0; i < NSLOTS; ++i) __CPROVER_assume(g_pool[i].m_before < M && g_pool[i].m_after < M && g_pool[i].m_original < M);
@@ -163,7 +169,7 @@ void h_insert(void)
         __CPROVER_assert(in_order(o1, n1, IDX(fresh)) && rb.is == fresh, "insert: the new slot is in the list and becomes the cursor");
         int j = 0;
         for (int k = 0; k < NSLOTS; ++k) if (k < n1 && o1[k] != IDX(fresh)) { __CPROVER_assert(j < n0 && o1[k] == o0[j], "insert: the old slots keep their order"); ++j; }
-        __CPROVER_assert(cur == (Slot *)0 ? sg.m_last == fresh : fresh->m_next == cur, "insert: placed before the cursor slot, or at the end when there is none");
+        __CPROVER_assert(iss0 == (Slot *)0 ? sg.m_last == fresh : fresh->m_next == iss0, "insert: placed before the first live slot at or after the cursor, or at the end when there is none");
         __CPROVER_assert(fresh->m_before < M && fresh->m_after < M && fresh->m_original < M, "insert: before/after/original of the new slot are valid char-info indices");
     }
     CANARY();
